@@ -7,4 +7,11 @@ _spec = _u.spec_from_file_location("interp_eval_for_kind", _os.path.join(_os.pat
 _full = _u.module_from_spec(_spec)
 _spec.loader.exec_module(_full)
 
-UNIT = dict(_full.UNIT, props=["C08", "C07"], prelude=_full.PRELUDE_KIND)
+import copy
+UNIT = copy.deepcopy(_full.UNIT)
+UNIT["props"] = ['C08', 'C07']
+UNIT["prelude"] = _full.PRELUDE_KIND
+# the method-level property tags follow the variant (an obligation belongs to the property its clauses are switched on for)
+for _it in UNIT["items"]:
+    if _it.get("methods"):
+        _it["methods"] = {k: (dict(v, props=['C08', 'C07']) if k == "eval_expression" else v) for k, v in _it["methods"].items()}
